@@ -17,7 +17,7 @@ EXPLANATION = (
     "character pointer is never advanced beyond the terminator it was just found on; R13.9 asserted input predicates - every call of a "
     "reader helper that asserts pred(param) on entry (LPFreadColName, LPFreadValue, ...) is unreachable when pred(arg) is false; R13.10 "
     "MPS fields - a field of the current MPS line is used as a string only where a null test of that field has been passed since "
-    "readLine(); R13.11 no assertion tests the character class of input text (positive control). NOT decided: memory safety in general (data-flow of "
+    "readLine(); R13.11 no assertion tests the character class of input text, and no section reader asserts a relation between the LP numbers it is filling in from the file (positive controls). NOT decided: memory safety in general (data-flow of "
     "uninitialised values, integer overflow in index arithmetic, leaks on exceptional paths): a fuzzer is the natural tool there.")
 
 C = M.CLS
@@ -132,6 +132,7 @@ def run(fb, rep, tier):
     preconditions(fb, rep, rf)
     null_fields(fb, rep, rf)
     input_asserts(fb, rep, rf)
+    scan_loops(fb, rep, rf)
 
 
 # ---------------------------------------------------------------------------------------------------
@@ -708,7 +709,7 @@ def null_fields(fb, rep, rf):
 def input_asserts(fb, rep, rf):
     """R13.11: text that comes from a file is validated with an error path, never with assert(): an assertion whose condition applies a
     character-class function to a string is a crash on malformed input in every build that keeps assertions (the baseline build does)"""
-    rep.rule('R13.11', 'no assertion in the reader code (or the number parsers it calls) tests the character class of input text', floor=15)
+    rep.rule('R13.11', 'no assertion in the reader code (or the number parsers it calls) tests the character class of input text or a relation between LP numbers being read', floor=15)
     CLASSIFIERS = {'isdigit', 'isalpha', 'isalnum', 'isspace', 'isxdigit', 'isupper', 'islower', 'all_of', 'any_of', 'none_of'}
     scope = list(rf) + [f for f in fb.funcs.values() if f.short in ('ratFromString', 'readStringRational') and f.name.startswith('soplex::')]
     ctl = 0
@@ -722,16 +723,147 @@ def input_asserts(fb, rep, rf):
                 continue
             cond = n.kid('cond')
             hit = [x for x in cond.walk() if x.k == 'CallExpr' and x.short in CLASSIFIERS] + [x for x in cond.walk() if x.k == 'DeclRefExpr' and x.short in CLASSIFIERS]
+            # second pattern: a section reader asserting a relation between LP numbers it is filling in from the file
+            if not hit and re.match(r'^(MPSread|LPFread|readLPF|readMPS|readBasis)', f.short or ''):
+                pset = set(pn for pn, pt in f.params if pt.endswith('&') and not pt.startswith('const '))
+                hit = [x for x in cond.walk() if x.k == 'CXXMemberCallExpr' and x.short in ('lhs', 'rhs', 'lower', 'upper', 'obj', 'maxObj', 'value') and x.obj() is not None and render(x.obj()) in pset]
             if f.name.startswith('verif_ctl::'):
                 ctl += 1 if hit else 0
                 continue
             n_assert += 1
             if hit:
-                rep.bad('R13.11', '%s|assert(%s)' % (f.short, render(cond)[:40]), '%s:%d' % (f.file, n.l), 'assert(%s) tests the character class of text read from a file: malformed input aborts the process instead of reaching the reader\'s error path' % render(cond)[:70])
-    if ctl < 1:
-        raise AnalysisBroken('R13.11 positive control (units/controls.cpp asserts_digits) did not fire')
+                rep.bad('R13.11', '%s|assert(%s)' % (f.short, render(cond)[:40]), '%s:%d' % (f.file, n.l), 'assert(%s) states something about data read from a file (character class / numbers being filled in): an input that does not comply aborts the process instead of reaching the reader\'s error path' % render(cond)[:70])
+    if ctl < 2:
+        raise AnalysisBroken('R13.11 positive controls (units/controls.cpp asserts_digits, MPSreadRangesControl) did not fire')
     rep.ok('R13.11', 'control|asserts_digits', 'units/controls.cpp', 'positive control fires', nontrivial=False)
     for k in range(0, n_assert, 10):
         rep.ok('R13.11', 'scan|assertions %d-%d' % (k, min(k + 9, n_assert - 1)), 'src', 'no character-class test in these assertions', nontrivial=False)
     if n_assert < 100:
         raise AnalysisBroken('only %d assertions found in the reader code' % n_assert)
+
+
+# ---------------------------------------------------------------------------------------------------
+def eval_at_nul(fb, e, elem_txt, depth=0):
+    """three-valued value of a loop condition when the scanned character `elem_txt` is NUL"""
+    e = strip(e)
+    if e is None or depth > 4:
+        return None
+    while e.k in ('CStyleCastExpr', 'CXXStaticCastExpr', 'CXXFunctionalCastExpr') and e.c:
+        e = strip(e.kids[0])
+
+    def val(x):
+        """integer value of a sub-expression, or None"""
+        x = strip(x)
+        while x is not None and x.k in ('CStyleCastExpr', 'CXXStaticCastExpr', 'CXXFunctionalCastExpr', 'ImplicitCastExpr') and x.c:
+            x = strip(x.kids[0])
+        if x is None:
+            return None
+        if render(x) == elem_txt:
+            return 0
+        if x.k == 'CallExpr' and x.short in ('tolower', 'toupper') and x.args() and val(x.args()[0]) == 0:
+            return 0
+        c = const_int(x)
+        if c is not None:
+            return c
+        if x.k == 'CharacterLiteral' and x.v is not None:
+            return int(x.v)
+        return None
+    if e.k == 'BinaryOperator' and e.o in ('&&', '||'):
+        a = eval_at_nul(fb, e.kids[0], elem_txt, depth)
+        b = eval_at_nul(fb, e.kids[1], elem_txt, depth)
+        if e.o == '&&' and a is not False and b is not False:
+            # `tolower(A) == elem` can only hold (elem being NUL) if A is NUL too: evaluate the other conjuncts with A = NUL
+            conj = []
+
+            def flat(x):
+                x = strip(x)
+                if x.k == 'BinaryOperator' and x.o == '&&':
+                    flat(x.kids[0])
+                    flat(x.kids[1])
+                else:
+                    conj.append(x)
+            flat(e)
+            for x in conj:
+                if x.k == 'BinaryOperator' and x.o == '==':
+                    for l, r in ((strip(x.kids[0]), strip(x.kids[1])), (strip(x.kids[1]), strip(x.kids[0]))):
+                        if val(r) == 0 and l.k == 'CallExpr' and l.short in ('tolower', 'toupper') and l.args():
+                            for y in conj:
+                                if y is not x and eval_at_nul(fb, y, render(strip(l.args()[0])), depth + 1) is False:
+                                    return False
+        if e.o == '&&':
+            return False if (a is False or b is False) else (True if (a is True and b is True) else None)
+        return True if (a is True or b is True) else (False if (a is False and b is False) else None)
+    if e.k == 'UnaryOperator' and e.o == '!':
+        a = eval_at_nul(fb, e.kids[0], elem_txt, depth)
+        return None if a is None else (not a)
+    if e.k == 'BinaryOperator' and e.o in ('==', '!=', '<', '>', '<=', '>='):
+        l, r = strip(e.kids[0]), strip(e.kids[1])
+        # strchr(set, c) ==/!= nullptr: the terminator of `set` matches a NUL character
+        for a, b in ((l, r), (r, l)):
+            if a.k == 'CallExpr' and a.short == 'strchr' and len(a.args()) == 2 and val(a.args()[1]) == 0 and b.k in ('CXXNullPtrLiteralExpr', 'GNUNullExpr', 'IntegerLiteral'):
+                return e.o == '!='
+        a, b = val(l), val(r)
+        if a is None or b is None:
+            return None
+        return {'==': a == b, '!=': a != b, '<': a < b, '>': a > b, '<=': a <= b, '>=': a >= b}[e.o]
+    if e.k == 'CallExpr' and e.u and len(e.args()) == 1 and val(e.args()[0]) == 0:
+        g = fb.funcs.get(e.u)
+        if g is not None and len(g.params) == 1:
+            rets = [n for n in g.nodes if n.k == 'ReturnStmt' and n.c]
+            if len(rets) == 1:
+                return eval_at_nul(fb, rets[0].kids[0], g.params[0][0], depth + 1)
+        return None
+    v = val(e)
+    if v is not None:
+        return bool(v)
+    return None
+
+
+def scan_loops(fb, rep, rf):
+    """R13.12: a loop that walks over characters (its condition reads a char element whose index / pointer the loop advances) must leave
+    when that character is the terminator: the condition, evaluated with the character = NUL, is false"""
+    rep.rule('R13.12', 'every loop that advances over the characters it tests stops at the terminator (its condition is false when the tested character is NUL)', floor=30)
+    seen = set()
+    k = 0
+    for f in rf:
+        for n in f.nodes:
+            if n.k not in ('WhileStmt', 'ForStmt', 'DoStmt'):
+                continue
+            c = n.kid('cond')
+            if c is None or (f.file, n.l, n.k) in seen:
+                continue
+            elems = []
+            for x in c.walk():
+                if x.k == 'ArraySubscriptExpr' and x.t in ('char', 'const char'):
+                    elems.append((x, strip(x.kids[1])))
+                elif x.k == 'UnaryOperator' and x.o == '*' and x.t in ('char', 'const char'):
+                    elems.append((x, strip(x.kids[0])))
+            if not elems:
+                continue
+            body = [n.kid('body'), n.kid('inc')]
+            adv = set()
+            for b in body:
+                if b is None:
+                    continue
+                for x in b.walk():
+                    if x.k == 'UnaryOperator' and x.o and x.o[-2:] in ('++', '--') and x.c:
+                        adv.add(render(strip(x.kids[0])))
+                    if x.k == 'CompoundAssignOperator' and x.o in ('+=', '-='):
+                        adv.add(render(strip(x.kids[0])))
+            walked = [(x, ix) for x, ix in elems if any(v.k == 'DeclRefExpr' and render(v) in adv for v in ix.walk())]
+            if not walked:
+                continue
+            seen.add((f.file, n.l, n.k))
+            done = set()
+            for x, ix in walked:
+                t = render(x)
+                if t in done:
+                    continue
+                done.add(t)
+                k += 1
+                v = eval_at_nul(fb, c, t)
+                key = '%s|loop(%s)|%s' % (f.short, render(c)[:40], t)
+                rep.check(v is False, 'R13.12', key, '%s:%d' % (f.file, n.l), 'the loop leaves when %s is NUL' % t,
+                          'the loop advances over %s while (%s), which is %s when %s is the terminator: the scan runs past the end of the string' % (t, render(c)[:60], 'true' if v else 'not decided', t))
+    if k < 30:
+        raise AnalysisBroken('only %d character-scanning loops found in the reader code' % k)
